@@ -530,6 +530,35 @@ def sx_in(x, c):
     return x in c
 
 
+def sx_bytes(*a, **kw):
+    """stand-in for the builtin bytes(...)"""
+    if len(a) == 1 and not kw:
+        x = a[0]
+        if isinstance(x, SymBytes):
+            return x
+        if isinstance(x, SymByteArray):
+            return mk_bytes(x.items)
+        if isinstance(x, (list, tuple)) and any(isinstance(v, SymInt) for v in x):
+            out = SymByteArray()
+            for v in x:
+                out.append(v)
+            return mk_bytes(out.items)
+    return bytes(*a, **kw)
+
+
+def sx_int_from_bytes(b, byteorder="big", *, signed=False):
+    """stand-in for int.from_bytes"""
+    if isinstance(b, (SymBytes, SymByteArray)) and not signed:
+        items = list(b.items)
+        if byteorder == "little":
+            items.reverse()
+        v = 0
+        for x in items:
+            v = v * 256 + x
+        return v
+    return int.from_bytes(b, byteorder, signed=signed)
+
+
 def sx_getitem(c, k):
     """stand-in for  c[k]  in load context"""
     if type(k) is SymInt and isinstance(c, dict) and not isinstance(c, ScanDict):
